@@ -57,7 +57,7 @@ def setup_worker() -> None:
     from zorg.service.compiler._file_compiler import ZorgFileCompiler as Z
 
     for n in ("_add_tag", "_add_prop", "exitH1_section", "exitH2_section", "exitH3_section", "exitH4_section", "enterDate", "_add_note"):
-        harness.COUNTERS.watch(n, getattr(Z, n))
+        harness.COUNTERS.watch_attr(Z, n)
 
 
 def plan(tier: str, seed: int) -> list[dict]:
